@@ -148,7 +148,7 @@ Qed.
 Theorem runner_error_explained_ptrace st pgid pid w time tl mem ml so tr r :
   fst (trace_step st pgid pid w time tl mem ml so tr) = inl r -> r_status r = RunnerError -> r_err r = true.
 Proof.
-  unfold trace_step, handle, usage_status.
+  unfold trace_step, handle, usage_status. destruct so, tr;
   repeat match goal with
          | |- context [if ?b then _ else _] => destruct b; simpl
          end;
@@ -184,7 +184,7 @@ Qed.
 
 Theorem ptrace_signal_delivery st pgid pid sig :
   1 <= sig -> sig < 128 -> h_execved st = true -> zmem pid (h_traced st) = true ->
-  let o := handle st pgid pid (ws_of_stop sig 0) true true in
+  let o := handle st pgid pid (ws_of_stop sig 0) SoOk TrOk in
   (sig = 24 /\ o_status o = TimeLimit) \/ (sig = 25 /\ o_status o = OutputLimit) \/
   (o_status o = Normal /\ o_finished o = false /\ o_reqs o = [ReqCont (Z.of_N sig)] /\ o_state o = st).
 Proof.
